@@ -527,6 +527,17 @@ def casWord (s : State) (o want : Ord) (loc : Loc) (exp new obs : Nat) (ok : Boo
   else if ok ≠ decide (obs = exp) then .error "CAS result inconsistent with observed/expected"
   else .ok (if ok then succ else fail)
 
+/-- `casWord` whose success branch continues with plain code that may panic. -/
+def casWordE (s : State) (o want : Ord) (loc : Loc) (exp new obs : Nat) (ok : Bool)
+    (old nw : Word) (succ : Except String State) (fail : State) : Except String State :=
+  if o ≠ want then .error "CAS with the wrong memory order"
+  else if loc ≠ .word then .error "CAS on the wrong location"
+  else if exp ≠ encode old then .error "CAS expected value differs from the model's"
+  else if new ≠ encode nw then .error "CAS new value differs from the model's"
+  else if obs ≠ encode s.word then .error "CAS observed a value the model's word does not hold"
+  else if ok ≠ decide (obs = exp) then .error "CAS result inconsistent with observed/expected"
+  else if ok then succ else .ok fail
+
 def ldWord (s : State) (o : Ord) (loc : Loc) (obs : Nat) (next : State) : Except String State :=
   if o ≠ .rlx then .error "load with the wrong memory order"
   else if loc ≠ .word then .error "load from the wrong location"
@@ -897,7 +908,9 @@ def stepCas (s : State) (t : Tid) (o : Ord) (loc : Loc) (exp new obs : Nat) (ok 
     casWord s o .rel loc exp new obs ok (addWord l) Word.zero
       (subShare { setPc s t (.ulRet l nwk) with word := Word.zero } t l) (setPc s t (.ulLd l nwk))
   | .ulCas1 l nwk old =>
-    let nw := if nwk then relNwWord old else relUncWord l old
+    let nw := match l with
+      | .W => if nwk then relNwWord old else relUncWord .W old
+      | .R => relUncWord .R old
     casWord s o .rel loc exp new obs ok old nw
       (subShare { setPc s t (.ulRet l nwk) with word := nw } t l) (setPc s t (.usLd (.ul l nwk)))
   | .usCasUnc r old =>
@@ -907,34 +920,16 @@ def stepCas (s : State) (t : Tid) (o : Ord) (loc : Loc) (exp new obs : Nat) (ok 
   | .usCasGrab r old =>
     let nw := grabWord r.mode old.cond old
     let s1 := subShare { s with word := nw, sp := some t } t r.mode
-    let s2 := if old.cond then { s1 with wOwner := some t } else s1
+    let s2 := { s1 with wOwner := if old.cond then some t else s1.wOwner }
     let sc0 : Scan := { late := old.cond, tc := old.cond, done := [], passed := [], todo := [], wake := [], wt := none,
                         sww := false, saf := true }
-    if o ≠ .ar then .error "CAS with the wrong memory order"
-    else if loc ≠ .word then .error "CAS on the wrong location"
-    else if exp ≠ encode old then .error "CAS expected value differs from the model's"
-    else if new ≠ encode nw then .error "CAS new value differs from the model's"
-    else if obs ≠ encode s.word then .error "CAS observed a value the model's word does not hold"
-    else if ok ≠ decide (obs = exp) then .error "CAS result inconsistent with observed/expected"
-    else if ok then afterPickup (pickup s2 sc0) t r sc0 else .ok (setPc s t (.usLd r))
+    casWordE s o .ar loc exp new obs ok old nw (afterPickup (pickup s2 sc0) t r sc0) (setPc s t (.usLd r))
   | .usRelCas r sc old =>
     let nw := { old with spin := false }
-    if o ≠ .rel then .error "CAS with the wrong memory order"
-    else if loc ≠ .word then .error "CAS on the wrong location"
-    else if exp ≠ encode old then .error "CAS expected value differs from the model's"
-    else if new ≠ encode nw then .error "CAS new value differs from the model's"
-    else if obs ≠ encode s.word then .error "CAS observed a value the model's word does not hold"
-    else if ok ≠ decide (obs = exp) then .error "CAS result inconsistent with observed/expected"
-    else if ok then scanRun 3 { s with word := nw, sp := none } t r sc else .ok (setPc s t (.usRelLd r sc))
+    casWordE s o .rel loc exp new obs ok old nw (scanRun 3 { s with word := nw, sp := none } t r sc) (setPc s t (.usRelLd r sc))
   | .usReCas r sc old =>
     let nw := { old with spin := true }
-    if o ≠ .acq then .error "CAS with the wrong memory order"
-    else if loc ≠ .word then .error "CAS on the wrong location"
-    else if exp ≠ encode old then .error "CAS expected value differs from the model's"
-    else if new ≠ encode nw then .error "CAS new value differs from the model's"
-    else if obs ≠ encode s.word then .error "CAS observed a value the model's word does not hold"
-    else if ok ≠ decide (obs = exp) then .error "CAS result inconsistent with observed/expected"
-    else if ok then afterPickup (pickup { s with word := nw, sp := some t } sc) t r sc else .ok (setPc s t (.usReLd r sc))
+    casWordE s o .acq loc exp new obs ok old nw (afterPickup (pickup { s with word := nw, sp := some t } sc) t r sc) (setPc s t (.usReLd r sc))
   | .usRcCas r sc k old =>
     if o ≠ .rlx then .error "CAS with the wrong memory order"
     else if loc ≠ .rc k then .error "CAS on the wrong location"
